@@ -54,6 +54,10 @@ def check_input(acc, root, m, cc, enc, d):
         fp = {"clause": "aborts", "exc": esc, "root": rc}
         if esc.startswith("ESCAPE"):
             fp["where"] = w.details.get("where")
+            if fp["where"] in ("encrypted", "process_response"):
+                ctx = oracle.enc_context(w.events, root, enc)
+                fp["requested"] = ctx["requested"]
+                fp["inconsistent"] = ctx["requested"] != ctx["response_sessions_encrypt"]
         else:
             fp["at"] = oracle.tail_shape(w.details.get("violator") or w.details.get("path") or w.details.get("cpath"))
         acc.violation(fp, d(), f"warn-mode decoding aborted with {esc}: {w.details}", size=len(m))
